@@ -39,7 +39,7 @@ MANIFEST = {
 }
 MANIFEST["text"] += " " + (
     'Added after the seeding waves: a deviation-bounded family of listing orders (identity, reversal, rotations, adjacent transpositions; neighbour lists reversed) on the named graphs, width-1 configurations, the fork8 graph with observations on its symmetry axis (exact ties inside a non-emitting run). Part 3 (a used matcher / map object): after EVERY history of depth <= 2 over {match prefix, extend, widen, continue_with_distance, match another trace} on a matcher whose map object served all earlier histories, a plain match(trace) must return the result and leave the complete lattice snapshot of a fresh matcher on a freshly built map (in-memory and SQLite).')
-BUDGET = {"quick": 420, "thorough": 3000}
+BUDGET = {"quick": 900, "thorough": 3000}
 RULE = ("states = (input, schedule) executions, transitions = iterations of a shadowed set that were given an explicit order, traces "
         "validated = inputs whose result was compared across fresh interpreters with different hash seeds; non-trivial = some "
         "scheduled set had >= 2 elements (part 1) or some listing-order variant exists (part 2); outcomes = canonical results.")
